@@ -8,7 +8,8 @@ EXTENDS Naturals, Sequences, FiniteSets, TLC
 CONSTANTS Keys,      \* set of key strings
           Vals,      \* set of values
           Max,       \* max_size
-          Min        \* effective min_size (>= 1, <= Max)
+          Min,       \* effective min_size (>= 1, <= Max)
+          HasCb      \* a deletion callback is configured (otherwise nothing is logged)
 
 VARIABLES data,      \* key -> value   (function on the held keys)
           cnt,       \* key -> use counter
@@ -25,6 +26,7 @@ TypeOK == /\ Dom \subseteq Keys /\ DOMAIN cnt = Dom
 Init == /\ data = [k \in {} |-> 0] /\ cnt = [k \in {} |-> 0]
         /\ cb = <<>> /\ alive = TRUE /\ ret = "none"
 
+Log(p) == IF HasCb THEN cb \o p ELSE cb
 Restrict(f, S) == [k \in S |-> f[k]]
 
 (* All orders in which a set can be listed. *)
@@ -62,7 +64,7 @@ SetWith(k, v, p) ==
                  /\ ValidDrop(p)
                  /\ data' = [x \in K \cup {k} |-> IF x = k THEN v ELSE data[x]]
                  /\ cnt' = [x \in K \cup {k} |-> 1]
-                 /\ cb' = cb \o p
+                 /\ cb' = Log(p)
           ELSE /\ p = <<>>
                /\ data' = [x \in Dom \cup {k} |-> IF x = k THEN v ELSE data[x]]
                /\ cnt' = [x \in Dom \cup {k} |-> IF x = k THEN 1 ELSE cnt[x]]
@@ -82,7 +84,7 @@ Del(k) ==
   /\ alive
   /\ IF k \in Dom
      THEN /\ data' = Restrict(data, Dom \ {k}) /\ cnt' = Restrict(cnt, Dom \ {k})
-          /\ cb' = Append(cb, k) /\ ret' = "none"
+          /\ cb' = Log(<<k>>) /\ ret' = "none"
      ELSE /\ ret' = "KeyError" /\ UNCHANGED <<data, cnt, cb>>   \* no callback for an absent key
   /\ alive' = alive
 
@@ -91,7 +93,7 @@ Contains(k) == /\ alive /\ ret' = (k \in Dom) /\ UNCHANGED <<data, cnt, cb, aliv
 DestroyWith(p) ==   \* __del__: one callback per held key, any order
   /\ alive
   /\ Len(p) = Cardinality(Dom) /\ Range(p) = Dom
-  /\ cb' = cb \o p
+  /\ cb' = Log(p)
   /\ data' = [k \in {} |-> 0] /\ cnt' = [k \in {} |-> 0]
   /\ alive' = FALSE /\ ret' = "none"
 Destroy == \E p \in Perms(Dom) : DestroyWith(p)
@@ -114,7 +116,7 @@ SizeBound == Cardinality(Dom) <= Max
 Count(s, k) == Cardinality({i \in 1..Len(s) : s[i] = k})
 (* never a callback for a key that is kept by the same step; at most one per step per key *)
 CallbackContract ==
-  [][ LET new == SubSeq(cb', Len(cb) + 1, Len(cb'))
+  [][ ~HasCb \/ LET new == SubSeq(cb', Len(cb) + 1, Len(cb'))
           dropped == Dom \ DOMAIN data'
       IN /\ \A k \in Keys : Count(new, k) = IF k \in dropped THEN 1 ELSE 0 ]_vars
 (* eviction only when a new key arrives at the limit *)
@@ -131,8 +133,21 @@ AbsView == <<data, cnt, alive>>      \* fingerprint for generation: callback log
 Matches(j) == /\ Dom = {j.keys[i] : i \in 1..Len(j.keys)}
               /\ \A i \in 1..Len(j.keys) : data[j.keys[i]] = j.vals[i]
               /\ cb = j.cb /\ alive = j.alive
+(* without a callback the drop order is unobservable: only the dropped set matters *)
+SetDrop(k, v, D) ==
+  LET K == Dom \ D IN
+  /\ alive /\ Evicting(k) /\ D \subseteq Dom /\ Cardinality(K) = NKeep
+  /\ \A a \in K, b \in D : cnt[a] >= cnt[b]
+  /\ data' = [x \in K \cup {k} |-> IF x = k THEN v ELSE data[x]]
+  /\ cnt' = [x \in K \cup {k} |-> 1]
+  /\ cb' = cb /\ ret' = "none" /\ alive' = alive
+DestroyQuiet == /\ alive /\ ~HasCb /\ cb' = cb /\ data' = [k \in {} |-> 0] /\ cnt' = [k \in {} |-> 0]
+                /\ alive' = FALSE /\ ret' = "none"
 (* trace-mode dispatcher: the logged callback suffix fixes the drop sequence *)
-TDo(e) == IF e.o.op = "Set" /\ Len(e.st.cb) >= Len(cb)
+TDo(e) == IF ~HasCb /\ e.o.op = "Set" /\ Evicting(e.o.k)
+          THEN SetDrop(e.o.k, e.o.v, Dom \ {e.st.keys[i] : i \in 1..Len(e.st.keys)})
+          ELSE IF ~HasCb /\ e.o.op = "Destroy" THEN DestroyQuiet
+          ELSE IF e.o.op = "Set" /\ Len(e.st.cb) >= Len(cb)
           THEN SetWith(e.o.k, e.o.v, SubSeq(e.st.cb, Len(cb) + 1, Len(e.st.cb)))
           ELSE IF e.o.op = "Destroy" /\ Len(e.st.cb) >= Len(cb)
           THEN DestroyWith(SubSeq(e.st.cb, Len(cb) + 1, Len(e.st.cb)))
